@@ -1,7 +1,7 @@
 (* PipelineProofs.v — theorems about kiki::generate as a whole. *)
 From Coq Require Import List Arith Lia Bool Permutation.
 From Kiki Require Import Base.Ord Base.Chars Data Oset.Model Lex.Model LR.Driver LR.Grammar LR.Inv LR.Complete LR.Sound LR.ErrPos
-  LR.Validate LR.ValidateProofs Front.Parse Front.FrontProofs Ast.Validate Ast.ValidateProofs Ast.VWF
+  LR.Validate LR.ValidateProofs Front.Parse Front.FrontProofs Ast.Validate Ast.WF Ast.ValidateProofs Ast.VWF Ast.Truthful
   Build.Machine Build.DetProofs Build.Table Build.TableProofs Build.FillProofs Build.TableSpec Build.GenCorrect Np Build.NoPanic
   Emit.Emit Emit.Parser Emit.NoPanic Pipeline.
 From Kiki Require Gen.Template.
@@ -146,4 +146,24 @@ Proof.
   - unfold generate_model, generate_full. rewrite Ev. apply np_err.
   - exfalso. apply (Hf s). reflexivity.
   - unfold generate_model, generate_full. rewrite Ev. apply np_oof.
+Qed.
+
+(* ---------- C10 at the level of generate ---------- *)
+
+Theorem generate_ok_only_wf ho digest src text :
+  generate_model ho digest src = Ok text ->
+  exists tokens ast, tokenize src = Ok tokens /\ front_parse (front_fuel (length tokens)) src tokens = Ok ast /\ WF ast.
+Proof.
+  unfold generate_model, generate_full. intros H. apply bind_ok in H as ([out tx] & H & _).
+  apply bind_ok in H as (v & Hv & _). unfold front_end in Hv.
+  apply bind_ok in Hv as (tokens & Ht & Hv). apply bind_ok in Hv as (ast & Ha & Hv).
+  exists tokens, ast. split; [exact Ht|]. split; [exact Ha|]. apply (validate_ast_ok_WF ast v Hv).
+Qed.
+
+Theorem generate_validation_error_truthful ho digest src tokens ast e :
+  tokenize src = Ok tokens -> front_parse (front_fuel (length tokens)) src tokens = Ok ast ->
+  validate_ast ast = Err e -> generate_model ho digest src = Err e /\ truthful ast e.
+Proof.
+  intros Ht Ha Hv. split; [|apply validate_ast_err_truthful, Hv].
+  unfold generate_model, generate_full, front_end. rewrite Ht. cbn [bind]. rewrite Ha. cbn [bind]. rewrite Hv. reflexivity.
 Qed.
